@@ -283,9 +283,10 @@ Lemma asm_store_S d s : asm_store enc16 pol (S d) s =
   do es <- map_out (asm_one (asm_store enc16 pol d)) (s_entries s);
   let nvdata := concat (map v_buf es) in
   let free := zlen nvdata in
-  let goff := (s_len s - nvar_guid_size * zlen (s_guids s)) mod 2 ^ 64 in
-  let gap := (goff - free) mod 2 ^ 64 in
-  if 2 ^ 47 <=? gap then Panic 12 else
+  let gsl := nvar_guid_size * zlen (s_guids s) in
+  if (s_len s <? gsl) || (s_len s - gsl <? free) then Err E_FIT else
+  let goff := s_len s - gsl in
+  let gap := goff - free in
   Ok (mkStore es (s_guids s) (nvdata ++ zrepeat pol gap ++ concat (rev (s_guids s))) free goff (s_len s)).
 Proof. reflexivity. Qed.
 
